@@ -2,6 +2,8 @@
 use mc_core::Ctx;
 
 mod c01;
+mod engine;
+mod world;
 
 fn main() {
     let ctx = Ctx::from_args();
